@@ -74,6 +74,7 @@ type pathState struct {
 
 	nondetMapOrder  bool
 	reverseMapOrder bool
+	keyMapOrder     int // +1 ascending by key, -1 descending (ghost orders)
 	concrete        bool // replay mode: all nondet values come from input model
 	input           Model
 	known           map[string]bool // enabled known-finding exclusions
